@@ -976,7 +976,7 @@ class Frame:
                     d = t['info']['variants'][v.variant].get('discr') if isinstance(t, dict) else None
                     return Num(wrap_int(int(d) if d is not None else v.variant, info['bits'], info['signed']), info['bits'], info['signed'])
                 return num_cast(v, info['bits'], info['signed'])
-            if isinstance(kind, dict) and 'PointerCoercion' in kind or kind in ('PtrToPtr', 'Transmute', 'FnPtrToPtr', 'PointerExposeAddress', 'PointerWithExposedProvenance') or (isinstance(kind, dict)):
+            if isinstance(kind, dict) and 'PointerCoercion' in kind or kind in ('PtrToPtr', 'Transmute', 'FnPtrToPtr', 'PointerExposeAddress', 'PointerWithExposedProvenance', 'Subtype') or (isinstance(kind, dict)):
                 return v
             raise Unmodelled(f'cast {kind}')
         if 'Aggregate' in r:
